@@ -1,8 +1,11 @@
 """C03 - parsing is total: a statement or a YAQL lexical/grammar error, nothing else.
 
 E3 enumeration of input texts in five families:
- (a) every sequence of <= 3 lexemes over the full token alphabet, joined with and without a space, on three engines;
- (b) every single-character insertion, deletion and substitution at every position of 30 valid expressions;
+ (a) every sequence of <= 3 lexemes over the full token alphabet, joined with and without a space, on five engines
+     (default, delegates, legacy, and two customised through insert_operator: a suffix operator '!'; a prefix '~'
+     plus a right-associative '**');
+ (b) every single-character insertion, deletion and substitution at every position of 30 valid expressions
+     (default engine and the two customised ones);
  (c) escape shapes inside each of the three quote styles (all bodies <= 4 over an 18-symbol alphabet, complete
      \\x.. \\u.... \\U........ digit fields over a small alphabet, \\N{..} names, octal runs);
  (d) numerals, identifiers, variables, strings and nested/chained constructs of boundary sizes up to 10**5 (around float overflow and the
@@ -31,7 +34,7 @@ RULE = ('texts are enumerated exhaustively per family (a)-(e); a case is distinc
 ASSUMPTIONS = ['nesting deeper than 10**5 (parser stack, memory) is not enumerated',
                'the int-digit limit is read from sys.get_int_max_str_digits(), not assumed']
 BOUNDS = {
-    'quick': '(a) <=2 lexemes over 64 and 3 over a 26-lexeme core, x{space,none} x 3 engines; (b) 30 expressions x 46 chars; '
+    'quick': '(a) <=2 lexemes over 64 and 3 over a 26-lexeme core, x{space,none} x 5 engines (3 stock, 2 customised with suffix ! / prefix ~ and **); (b) 30 expressions x 46 chars x 3 engines; '
              '(c) bodies <=4 over 18 symbols x 3 styles, \\x \\u fields over {0,1,f,Z,quote}, \\U field over {0,1,f,Z}; '
              '(d) 24 kinds of long token / deep nesting x lengths 1..10**5 (digits-then-letter only up to 4301: quadratic lexing time); (e) all 65536 BMP code points x 5 contexts + 64 astral',
     'thorough': 'as quick with (a) 3 lexemes over all 64 and 4 over the core (default engine), (c) bodies of length 5 in single quotes, \\U field over {0,1,f,Z,quote} (5**8) x 3 styles, '
@@ -46,9 +49,9 @@ LEXEMES = (['a', '1', '1.5', '$', '$x', "'s'", '"s"', '`s`', 'true', 'null', 'f(
            + BINARY + ['not']
            + ['#', '@', ';', '!', '?', '|', '&', '~', '^', '%', ':', '\\']
            + ["'u", '"u', '`u']
-           + ['__x', '1a', '.5', '1.', 'é', '١', "''", '\n', '_', '0x1F'])
+           + ['__x', '1a', '.5', '1.', 'é', '١', "''", '\n', '_', '0x1F', '**'])
 CORE = ['a', '1', '$x', "'s'", 'f(', '(', ')', '[', ']', '{', '}', ',', '=>', '.', '-', '*', '=', 'in', 'not', '->',
-        '#', '\\', "'u", '__x', '1.', '`s`']
+        '#', '\\', "'u", '__x', '1.', '`s`', '!', '~', '**', 'true']
 
 BASE = ['1 + 2', '$.a.b', 'f(x, y => 1)', "[1, 2.5, 'a']", '{a => b}', '$x[0]', 'a and not b', "'it\\'s'",
         '"q\\n"', '`v\\d`', 'x -> $ > 1', 'a ?. b', '- 1 * (2 + 3)', 'a in [b]', '$.where($ > 0)', 'true = null',
@@ -64,6 +67,13 @@ OCTAL = ['\\0', '\\7', '\\8', '\\9', '\\00', '\\77', '\\78', '\\000', '\\377', '
          '\\1234', '\\7777', '\\08', '\\18\\7']
 LENGTHS = [1, 17, 308, 309, 310, 4299, 4300, 4301, 10 ** 4, 10 ** 5]
 
+# engines customised through the public insertion API: the grammar actions for suffix/prefix operators and the
+# lexer rules for new symbols only exist there
+CUSTOM = {
+    'suffix': [('.', True, '!', 'SUFFIX_UNARY', True)],
+    'prefix-pow': [('not', False, '~', 'PREFIX_UNARY', False), ('*', True, '**', 'BINARY_RIGHT_ASSOCIATIVE', True)],
+}
+ENGINES = ('default', 'delegates', 'legacy', 'suffix', 'prefix-pow')
 _engines = {}
 
 
@@ -74,6 +84,8 @@ def engine(name):
             f = ylegacy.YaqlFactory()
         else:
             f = yaql.YaqlFactory(allow_delegates=(name == 'delegates'))
+        for ins in CUSTOM.get(name, ()):
+            f.insert_operator(*ins)
         e = _engines[name] = f.create()
     return e
 
@@ -186,11 +198,11 @@ def job_tokens(eng_name, firsts, alphabet_name, upto):
 # --------------------------------------------------------------------------
 # (b) single-character edits of valid expressions
 # --------------------------------------------------------------------------
-def job_edits(bases):
+def job_edits(eng_name, bases):
     res = Result()
     for base in bases:
         seen = {base}
-        judge(res, 'b', 'default', base)
+        judge(res, 'b', eng_name, base)
         for i in range(len(base) + 1):
             variants = [base[:i] + c + base[i:] for c in MUT_CHARS]
             if i < len(base):
@@ -199,8 +211,8 @@ def job_edits(bases):
             for text in variants:
                 if text not in seen:
                     seen.add(text)
-                    judge(res, 'b', 'default', text)
-    res.sample({'family': 'b', 'base': bases[0]}, limit=1)
+                    judge(res, 'b', eng_name, text)
+    res.sample({'family': 'b', 'engine': eng_name, 'base': bases[0]}, limit=1)
     return res
 
 
@@ -360,8 +372,8 @@ ASTRAL = [0x10000, 0x10001, 0x1F600, 0x1D7D8, 0x1D7FF, 0x1FFFF, 0x20000, 0x2A6DF
 
 def jobs(tier, seed):
     out = []
-    for eng_name in ('default', 'delegates', 'legacy'):
-        for i, sl in enumerate(chunks(LEXEMES, 4)):
+    for eng_name in ENGINES:
+        for i, sl in enumerate(chunks(LEXEMES, 2)):
             out.append(('a-%s-2-%d' % (eng_name, i), 'job_tokens', (eng_name, sl, 'full', [1, 2])))
         if tier == 'quick':
             for i, sl in enumerate(chunks(CORE, 2)):
@@ -372,8 +384,9 @@ def jobs(tier, seed):
             if eng_name == 'default':
                 for i, sl in enumerate(chunks(CORE, 13)):
                     out.append(('a-default-4-%d' % i, 'job_tokens', (eng_name, sl, 'core', [4])))
-    for i, sl in enumerate(chunks(BASE, 6)):
-        out.append(('b-%d' % i, 'job_edits', (sl,)))
+    for eng_name in ('default', 'suffix', 'prefix-pow'):
+        for i, sl in enumerate(chunks(BASE, 2)):
+            out.append(('b-%s-%d' % (eng_name, i), 'job_edits', (eng_name, sl)))
     for i, sl in enumerate(chunks(ESC_ALPHA, 9 if tier == 'quick' else 18)):
         out.append(('c-bodies-%d' % i, 'job_escape_bodies', (sl, tier == 'thorough')))
     small = ['0', '1', 'f', 'Z', 'QUOTE']
@@ -387,8 +400,8 @@ def jobs(tier, seed):
     out.append(('c-names', 'job_escape_names', ()))
     for i, sl in enumerate(chunks(LONG_KINDS, 8)):
         out.append(('d-%d' % i, 'job_long', (sl,)))
-    step = 0x10000 // 16
-    for i in range(16):
+    step = 0x10000 // 8
+    for i in range(8):
         out.append(('e-bmp-%x' % (i * step), 'job_codepoints', ([(i * step, (i + 1) * step)], CONTEXTS)))
     out.append(('e-astral', 'job_codepoints', ([(cp, min(cp + 4, 0x110000)) for cp in ASTRAL], CONTEXTS)))
     if tier == 'thorough':
